@@ -32,7 +32,9 @@ CFG = {
                     "the effect of one message (EVM + gas accounting) is an abstract function of (config, EVM context, state, gas pool, tx): properties C06/C07/C08",
                     "header and uncle verification are abstract predicates (property C13)",
                     "import_history_independent assumes collision-freedom of the state root and header hash (stated as hypotheses)",
-                    "runtime caches (block/body/futureBlocks LRUs, pastTries, codeSizeCache, trie cache generations) are not modelled: import_cache_independent_partial; their irrelevance is exercised on the real node only"],
+                    "import_cache_independent / cache_coherence_preserved assume collision-freedom of header hash, tx root, uncle hash and state root (CollisionFree) and the current order of checks in ValidateBody",
+                    "the caches are modelled as arbitrary partial maps with adversarial fill/evict events; that Go's LRU and trie-node cache implementations return what was put in is exercised on the real node (warm/cold, archive/pruning, restarts, fork-divergent code), not proved",
+                    "finalise_root_perm_invariant assumes Codec.Ok: injective trie keys (secure-trie key hashing without collisions), non-empty encodings; the hash function H is arbitrary"],
     "trusted_base": ["Model.BlockImport mirrors core/state/statedb.go Finalise/Commit, state_object.go updateTrie, core/state_processor.go, core/block_validator.go, "
                      "core/blockchain.go insertChain2/WriteBlockWithState, consensus/aquahash Finalize/accumulateRewards, core/chain_makers.go, core/types NewBlock"],
 }
@@ -42,7 +44,9 @@ META = {
     "text": "Theorems finalise_perm_invariant / intermediateRoot_perm_invariant / commit_perm_invariant (all permutations of Go's map iterations give the same "
             "account- and storage-trie content, hence the same root for any root function), validate_iff (accepted <=> the six header commitments equal the "
             "recomputed ones), accepted_only_if_self_consistent, build_then_import, reject_leaves_unchanged, insertChain_aborts_at_first_invalid, "
-            "import_is_function and import_history_independent hold for all inputs and histories in the Lean model of the import path; every run re-checks them, "
+            "import_is_function, import_history_independent, cache_coherence_preserved / import_cache_independent (every coherent state of the block, td, state and "
+            "code-size caches gives the same import; witnesses for a wrongly keyed code-size cache and for the stale block cache of the old check order) and "
+            "finalise_root_perm_invariant (on real Merkle-Patricia tries, composed with C10 root_content_only: equal ROOTS for all iteration orders) hold for all inputs and histories in the Lean model of the import path; every run re-checks them, "
             "imports generated block trees on the real node under many arrival histories x cache configurations x restarts requiring identical per-block "
             "results equal to the builder's, requires every single-field corruption to be refused with head/database/state untouched, and replays every "
             "delivered block and every dumped dirty set through the compiled model.",
